@@ -71,7 +71,7 @@ ITEMS = [("1", "n"), ("-2.5", "n"), ("&HFF", "n"), ('"A B"', "s"), (" C D ", "s"
 
 def gen_data(run, quick=True, tag="data"):
     cases = []
-    items = ITEMS if not quick else ITEMS[:7]
+    items = ITEMS
     shapes = []
     for n1 in (1, 2, 3):
         for combo in itertools.product(items, repeat=n1):
@@ -141,7 +141,7 @@ def gen_print(run):
     args = ["A", "A$", '"X"', "TAB(3)", "B+1"]
     seps = [";", ",", " ", ""]
     seen = set()
-    for n in (0, 1, 2, 3):
+    for n in ((0, 1, 2, 3) if run.tier == "quick" else (0, 1, 2, 3, 4)):
         for combo in itertools.product(args, repeat=n):
             for lead in ("", ";", ","):
                 for sp in itertools.product(seps[:3], repeat=max(0, n - 1)):
@@ -200,7 +200,10 @@ def gen_input(run):
 # ------------------------------------------------------------------ (5) string functions
 def gen_strfn(run):
     cases = []
-    strs = [""] + ["".join(p) for n in (1, 2, 3) for p in itertools.product("AB", repeat=n)]
+    if run.tier == "quick":
+        strs = [""] + ["".join(p) for n in (1, 2, 3) for p in itertools.product("AB", repeat=n)] + [" ", "A ", " A", "A B", "  "]
+    else:
+        strs = [""] + ["".join(p) for n in (1, 2, 3, 4) for p in itertools.product("AB ", repeat=n)]
     for s in strs:
         lines = [f'10 S$="{s}"']
         n = 20
